@@ -21,6 +21,7 @@ func AfterChan(d time.Duration) <-chan time.Time {
 
 // Timer replaces time.Timer.
 type Timer struct {
+	hb byte // address for the arm -> fire happens-before edge under -race
 	C  <-chan time.Time
 	ev Event
 	f  bool
@@ -45,9 +46,16 @@ func NewTimer(d time.Duration) *Timer {
 //go:norace
 func AfterFunc(d time.Duration, f func()) *Timer {
 	t := &Timer{}
+	// what happened before the timer was armed happens before its function runs
+	// (as with a real timer): the edge is lost otherwise, because the function is
+	// started from the scheduler's goroutine
+	RaceReleaseMerge(unsafePointer(&t.hb))
 	t.ev = After(d, func() {
 		t.f = true
-		S.spawn("afterfunc", "repo", f)
+		S.spawn("afterfunc", "repo", func() {
+			RaceAcquire(unsafePointer(&t.hb))
+			f()
+		})
 	})
 	return t
 }
